@@ -78,8 +78,8 @@ Qed.
 (* Wait has returned: the state is quiet *)
 Lemma exit_quiet s s' : step s CT_EXIT = Some s' -> Quiet s' /\ outframes s' = outframes s.
 Proof.
-  unfold step. destruct (done_seen s && is_idle s) eqn:C; [|discriminate]. intros E; inversion E; subst.
-  apply andb_prop in C as [_ C]. apply is_idle_facts in C as (P & X & O).
+  unfold step. destruct (done_seen s && is_idle s && _) eqn:C; [|discriminate]. intros E; inversion E; subst.
+  apply andb_prop in C as [C _]. apply andb_prop in C as [_ C]. apply is_idle_facts in C as (P & X & O).
   unfold Quiet. simp_state. auto.
 Qed.
 
